@@ -283,7 +283,8 @@ fn guard<T, E: Display>(f: impl FnOnce() -> Result<T, E>) -> Obs<T> {
             }
             let site = c.site();
             let file = site.split(':').next().unwrap_or("").to_string();
-            Obs::Panic(file, format!("{site} (line {})", c.line))
+            let long = format!("{} ({file}:{})", c.message, c.line);
+            Obs::Panic(file, long)
         }
     }
 }
